@@ -117,7 +117,6 @@ def explore(chk):
     nstates = chk.cov["states"]
     for c in ("C08.trie.split", "C08.trie.suffix", "C08.trie.domain", "C08.trie.valid"):
         chk.clause(c, checked=chk.cov["traces_validated_against_impl"], nontrivial=nstates)
-    chk.sample({"ops": [["add", "y"], ["add", "*.y"], ["add", "!x.y"]], "queries": "4 methods x all hosts depth<=4"})
     from mc.props import c08_bundled
 
     c08_bundled.explore(chk)
